@@ -316,7 +316,8 @@ func (w *World) Close() {
 // BuildRequest creates the *http.Request for a spec (without context).
 func BuildRequest(spec ReqSpec) (*http.Request, error) {
 	method := spec.Method
-	if method == "" {
+	emptyMethod := method == "<empty>" // a request built as a struct literal: "" means GET for clients
+	if method == "" || emptyMethod {
 		method = "GET"
 	}
 	var req *http.Request
@@ -334,6 +335,9 @@ func BuildRequest(spec ReqSpec) (*http.Request, error) {
 		if err != nil {
 			return nil, err
 		}
+	}
+	if emptyMethod {
+		req.Method = ""
 	}
 	if spec.Host != "" {
 		req.Host = spec.Host
